@@ -67,7 +67,8 @@ func runC14(c *Ctx) {
 	r.Rule("na-confined", "forged NA only to hunted MACs, after a router was learned, while not closed", 5)
 	r.Rule("na-flags", "override set, router/solicited clear", 3)
 	r.Rule("hunt-admin", "StartHunt filters and idempotence; StopHunt", 5)
-	r.Rule("router-fields", "each Router field comes from the like-meaning RA getter", 9)
+	runNDPSiblings(c)
+	r.Rule("router-fields", "each Router field comes from the like-meaning RA getter and is updated by every advertisement", 18)
 
 	rel := "handlers/icmp_spoofer"
 	loop := c.A.Method(rel, "Handler6", "spoofLoop")
@@ -351,6 +352,19 @@ func runC14(c *Ctx) {
 		}
 		r.Add(core.Obligation{Rule: "router-fields", Key: "router-fields Router." + f, Func: core.FuncName(pp), Pos: c.P.Pos(core.PosOf(st)), Status: status,
 			Basis: "assigned from " + val, Detail: fmt.Sprintf("Router.%s is assigned from %s, expected the advertisement's %s", f, val, strings.Trim(w, ").("))})
+		// every advertisement that reaches the table lookup updates the field: the store lies on every path from
+		// findOrCreateRouter to a return (an "unchanged, skip" shortcut keeps stale flags and lifetimes)
+		for _, lk := range callsIn(pp, nameIs("findOrCreateRouter")) {
+			okAll, exit := mustPass(lk.(ssa.Instruction), func(j ssa.Instruction) bool { return j == ssa.Instruction(st) })
+			us := core.Proved
+			det := ""
+			if !okAll {
+				us = core.Violated
+				det = "a path from the router lookup reaches the return at " + c.P.Pos(core.PosOf(exit)) + " without assigning Router." + f + ": a later advertisement of a known router is not recorded"
+			}
+			r.Add(core.Obligation{Rule: "router-fields", Key: "router-fields Router." + f + " updated by every advertisement", Func: core.FuncName(pp), Pos: c.P.Pos(core.PosOf(st)), Status: us,
+				Basis: "the store lies on every path from findOrCreateRouter to a return", Detail: det})
+		}
 	})
 	for f := range want {
 		if !seen[f] {
